@@ -141,7 +141,8 @@ class GQ:
 
     # ---------------------------------------------------------------- counting
 
-    def sccs(self):
+    def sccs(self, blocked=()):
+        blocked = set(blocked)
         n = self.g.n
         index = [None] * n
         low = [0] * n
@@ -164,6 +165,8 @@ class GQ:
                 es = self.succ.get(v, ())
                 if i < len(es):
                     work[-1] = (v, i + 1)
+                    if blocked and es[i] in blocked:
+                        continue
                     w = self.E[es[i]][1]
                     if index[w] is None:
                         work.append((w, 0))
